@@ -133,7 +133,7 @@ def random_case(rng):
             elif k < 0.6:
                 ops.append(K())
             elif k < 0.72:
-                ops.append(U(rng.choice([0, 0, 1, -1]), rng.choice(STS), rng.choice([0, 0, T0 - 5000, T0 + 5000]),
+                ops.append(U(rng.choice([0, 0, 1, -1]), rng.choice(STS), rng.choice([0, 0, T0 - 5000, T0 + 5000, T0 + 5000, -1, -BIG, -INT64_MAX]),
                              rng.choice([5, 6, 7, 0]) if rng.random() < 0.1 else rng.randrange(1, 60)))
             else:
                 ops.append(L(spellings(rng, sub + "." + base)))
@@ -195,6 +195,12 @@ def cleanup_cases(rng, cfix, n_random):
     for _ in range(n_random):
         out.append(case(th, [0] * (k + 2) + [1] * rng.choice([0, k + 2]) + bursts(rng, 5)))
         out.append(case(th2, [0] * rng.choice([k, k + 2]) + bursts(rng, 6)))
+    # expiry instants at the boundaries: only 0 means "never"; an instant in the past — NEGATIVE ones included (what the adapter's
+    # now + ttl wraps to) — never routes, is swept, and its name is re-claimable
+    for exp in (-1, -BIG, -INT64_MAX, -(INT64_MAX - 1700000000), T0 - 5000, 0, T0 + 5000):
+        thb = [thr(1, [C("a", 11), U(0, "active", exp, 12)]), thr(9, [L("a.tunnox.net:80"), K(), L("a.tunnox.net")]),
+               thr(2, [C("a", 22)]), thr(9, [L("a.tunnox.net")])]
+        out.append(case(thb, [0] * (k + 2) + [1] * 16 + [2] * k + [3] * 2))
     # storage failures inside the cleanup
     for _ in range(n_random // 2):
         t3 = [dict(t) for t in th]
@@ -316,7 +322,7 @@ def op_term(o):
     if k == "D":
         return [1, 1, o["mine"]] if o["mine"] >= 0 else [1, 0, o["abs"]]
     if k == "U":
-        return [2, o["mine"] if o["mine"] >= 0 else 99, STS.index(o["st"]), o["exp"], o["tgt"]]
+        return [2, o["mine"] if o["mine"] >= 0 else 99, STS.index(o["st"]), encz(o["exp"]), o["tgt"]]
     if k == "L":
         return [3, bytes.fromhex(o["host"]), T0]
     if k == "K":
@@ -351,7 +357,7 @@ def case_value(c, o, guarded, cfix, ifirst=True, estop=True):
     ths = [[encz(t["client"]), [op_term(op) for op in t["ops"]], [bool(f) for f in t["faults"]], [res_term(r) for r in to]]
            for t, to in zip(c["threads"], o["results"])]
     obs = [[[bytes.fromhex(n), int(i)] for n, i in o["idx"]],
-           [[r["id"], bytes.fromhex(r["name"]), encz(r["client"]), r["tgt"], r["st"], r["exp"]] for r in o["recs"]],
+           [[r["id"], bytes.fromhex(r["name"]), encz(r["client"]), r["tgt"], r["st"], encz(r["exp"])] for r in o["recs"]],
            [[encz(row[0]), row[1:]] for row in o["lists"]],
            list(o["guards"]), o["next"],
            [[n.encode("latin1"), res_term(f)] for n, f in zip(nl, o["finals"])],
